@@ -1142,7 +1142,7 @@ func (r *c13Run) start() {
 			r.t.Fatalf("nursery start: %v", err)
 		}
 	}
-	if err := arb.Start(nil, newBeatFromHeight(h)); err != nil {
+	if err := arb.Start(nil, newBeatFromHeight(h)); err != nil && e.isAlive(ep) {
 		r.t.Fatalf("start: %v", err)
 	}
 	// The chain watcher of a channel that is not yet marked closed
